@@ -392,6 +392,13 @@ func (p *Prog) fieldWriters(pkg, typ string) map[string][]string {
 					continue
 				}
 				addr := st.Addr
+				// *p = v on a whole value of typ overwrites every field
+				// (assigning a local variable its value is not an overwrite)
+				if pt, ok := addr.Type().Underlying().(*types.Pointer); ok && isNamed(pt.Elem(), pkg, typ) {
+					if _, local := addr.(*ssa.Alloc); !local {
+						out["(whole value)"] = appendUnique(out["(whole value)"], funcName(fn))
+					}
+				}
 				// &x.f, possibly nested: attribute to the outermost field of typ
 				for {
 					fa, ok := addr.(*ssa.FieldAddr)
